@@ -42,7 +42,9 @@ def seq(level, text, rule_extra, quick=60, thorough=900, measure=None, **kw):
 PROPS.update({
     "C01": seq("fault_enumeration",
                "seeded search over operation sequences and background-thread schedules; inside every sampled run every crash point of the disk trace is enumerated (prefix mode), plus sampled subsets of un-barriered writes and nested crashes during recovery; each image is recovered by the real server and must equal a prefix state that includes every operation acknowledged with stable semantics (tree, sizes, link targets, every byte, handles), pass fsck and conservation, and keep serving",
-               "then recovery from every crash point of its disk trace (crash-prefix refinement P, fsck F, conservation A, continuation workload).", quick=75),
+               "then recovery from every crash point of its disk trace (crash-prefix refinement P, fsck F, conservation A, continuation workload). "
+               "Every 4th evaluation is instead a run of 2-4 concurrent clients (stable writes only) whose disk trace is cut at sampled points inside the group commits; "
+               "the recovered tree is read back through RPCs and porcupine decides whether acknowledged operations (exact) + operations in flight (took effect with their reply, or not at all) + post-crash observations are linearizable.", quick=75),
     "C02": seq("exploration",
                "seeded search over single-client histories (50-300 operations, all procedures, stale/garbage handles, illegal names, block/indirection boundaries, restarts, unstable on/off, small inode caches); every reply and periodic full dumps are compared with the reference file system, restarts with restart-equivalence",
                "full tree/data dumps vs the model every few operations and at the end, restart equivalence at every restart."),
@@ -54,7 +56,8 @@ PROPS.update({
                "conservation at quiescent points and the delete-everything check."),
     "C07": seq("fault_enumeration",
                "seeded search over stability mixes (UNSTABLE/DATA_SYNC/FILE_SYNC writes to several files, COMMITs, metadata operations, restarts, unstable option on/off); every crash point of each trace is recovered and must equal a prefix state that includes everything acknowledged as stable (so unstable loss is a suffix only); committed level never weaker than requested; write verifier constant within and different across server instances",
-               "then recovery from every crash point; 'stable' is defined by the replies (committed >= DATA_SYNC, successful COMMIT, any later operation that commits with wait).", quick=75),
+               "then recovery from every crash point; 'stable' is defined by the replies (committed >= DATA_SYNC, successful COMMIT, any later operation that commits with wait). "
+               "Every 4th evaluation is instead a run of 2-4 concurrent clients (write/COMMIT-heavy, all stability levels): at sampled crash points of the concurrent phase, writes answered UNSTABLE and not followed by a later acknowledged COMMIT/stable operation are optional, everything else acknowledged must be in the recovered state (porcupine).", quick=75),
     "C08": seq("exploration",
                "seeded search over reuse-heavy histories (create/remove cycles so that inode numbers are recycled, restarts); every handle of a removed object is presented to every procedure and every handle position (object, directory, RENAME source and target directory) and must fail as stale without effect; handle <-> object must stay a bijection",
                "plus the dead-handle sweep: every removed object's handle x 20 procedure/position combinations."),
